@@ -1,5 +1,5 @@
 CONSTANTS Depth = 3
- Leaves = {"int", "string", "error", "any", "fixt.A", "fixt.AI", "fixt2.B", "fixt2.BS", "clash.C", "fixt.Gen[int]", "fixt.Gen[fixt.A]", "fixt.Gen[fixt2.B]", "subjson.J", "stdjson.RawMessage", "fixt.Gen[dotted.D]"}
+ Leaves = {"int", "string", "error", "any", "fixt.A", "fixt.AI", "fixt2.B", "fixt2.BS", "clash.C", "fixt.Gen[int]", "fixt.Gen[fixt.A]", "fixt.Gen[fixt2.B]", "subjson.J", "stdjson.RawMessage", "fixt.Gen[dotted.D]", "fixt.PA", "fixt.Gen[stdtime.Duration]"}
  Ctors = {"ptr", "slice", "array3", "array0", "chan", "mapS", "mapK", "struct1", "struct2", "struct3"}
  Targets = {"fixt", "fixt2", "clash-pre", "dotted"}
  Views = {"types", "reflect"}
